@@ -30,6 +30,14 @@ func TestOracleC18(t *testing.T) {
 	deadline := time.Now().Add(budget)
 	fails := 0
 	cases := 0
+	if n, bad := oracleC18Concurrent(t, seed); bad != "" {
+		fmt.Printf("FAILING-INPUT: %s\n", bad)
+		t.Errorf("%s", bad)
+		fails++
+		cases += n
+	} else {
+		cases += n
+	}
 	defer func() { fmt.Printf("ORACLE-CASES: %d seed=%d\n", cases, seed) }()
 	keyLens := []int{0, 1, 19, 20, 21, 32, 33, 63, 64, 65, 80, 200, 300}
 	for time.Now().Before(deadline) && fails < 3 {
@@ -103,4 +111,61 @@ func TestOracleC18(t *testing.T) {
 			history += " put"
 		}
 	}
+}
+
+// TestOracleC18 also exercises the pool from several goroutines at once: every result must still equal crypto/hmac
+// (a pool that can hand the same object to two goroutines produces wrong MACs or panics inside the hash).
+func oracleC18Concurrent(t *testing.T, seed int64) (cases int, failed string) {
+	const workers, rounds = 8, 1500
+	errs := make(chan string, workers)
+	done := make(chan int, workers)
+	for w := 0; w < workers; w++ {
+		go func(w int) {
+			n := 0
+			defer func() {
+				if r := recover(); r != nil {
+					errs <- fmt.Sprintf("goroutine %d: panic inside the pooled HMAC: %v", w, r)
+				}
+				done <- n
+			}()
+			rng := rand.New(rand.NewSource(seed*100 + int64(w)))
+			for i := 0; i < rounds; i++ {
+				key := make([]byte, 1+rng.Intn(100))
+				rng.Read(key)
+				msg := make([]byte, rng.Intn(200))
+				rng.Read(msg)
+				var got, want []byte
+				if rng.Intn(2) == 0 {
+					h := AcquireSHA1(key)
+					h.Write(msg)
+					got = h.Sum(nil)
+					PutSHA1(h)
+					r := stdhmac.New(sha1.New, key)
+					r.Write(msg)
+					want = r.Sum(nil)
+				} else {
+					h := AcquireSHA256(key)
+					h.Write(msg)
+					got = h.Sum(nil)
+					PutSHA256(h)
+					r := stdhmac.New(sha256.New, key)
+					r.Write(msg)
+					want = r.Sum(nil)
+				}
+				n++
+				if !bytes.Equal(got, want) {
+					errs <- fmt.Sprintf("goroutine %d of %d using the pool concurrently, round %d: pooled HMAC %x, RFC 2104 (crypto/hmac) %x (key %x, %d-byte message)", w, workers, i, got, want, key, len(msg))
+					return
+				}
+			}
+		}(w)
+	}
+	for w := 0; w < workers; w++ {
+		cases += <-done
+	}
+	select {
+	case failed = <-errs:
+	default:
+	}
+	return cases, failed
 }
